@@ -163,6 +163,13 @@ def chunk_labels(rng, y, d, n_chunks=None, unknown_frac=0.2):
         if n_chunks is not None and cid >= n_chunks and dof >= d + 2:
           break
     if dof >= d + 2:
+      # a chunk may have a single member (it adds nothing to the
+      # within-chunk covariance, but it is a chunk all the same)
+      free = np.where(chunks < 0)[0]
+      if len(free) and rng.randint(2):
+        for i in rng.permutation(free)[:int(rng.randint(1, 3))]:
+          chunks[i] = cid
+          cid += 1
       return chunks
     unknown_frac *= 0.5
   raise RuntimeError('could not build full-rank chunks')
